@@ -384,7 +384,9 @@ impl Phase for Pairs {
                 // a value-producing snippet of each type, so that every Ok variant meets every entry point
                 r.pick(&["\"str\"", "4", "2.5", "true", "(1, 2.5, \"x\")", "()", "x = 3", "1;", "len(\"abc\")", "1/0", "nosuch(1)", "u", "5 + 1.0", "\"a\" + \"b\"", "(1,2) == (1,2)", "!true", "x0", "x1 = x0", "min(4, 2)", "len(\"abc\") + 1", "typeof(x)", "max(1, 3) == 3", "x", "y", "x2", "math::pi", "math::e + 1", "math::tau", "PI", "E", "pi", "e", "nan", "inf", "a = math::pi", "answer", "version", "_", "x == x", "x0 == x0", "x1 != x1", "x2 == x2", "(x, 1) == (x, 1)", "x >= x",
                     // assignment targets that are not identifiers in the source text
-                    "\"a\" = 5; a * 2", "\"x\" = 1; x", "(\"a\") = 2; a", "\"x\" += 1", "\"a\" = 5", "\"a b\" = 1", "str::from(\"x\") = 4; x", "(x) = 3; x"])
+                    "\"a\" = 5; a * 2", "\"x\" = 1; x", "(\"a\") = 2; a", "\"x\" += 1", "\"a\" = 5", "\"a b\" = 1", "str::from(\"x\") = 4; x", "(x) = 3; x",
+                    // user functions that re-enter the library, some of them more than 64 levels deep
+                    "deep(70)", "deep(3) + deep(65)", "deep(80) == 80", "nest(1)", "deep(81)", "len(\"a\r\nb\")", "\"l1\r\nl2\" + \"\r\""])
                     .to_string()
             },
             9 if r.chance(1, 2) => {
@@ -467,9 +469,122 @@ pub fn selfcheck() -> Result<String, String> {
     Ok("projection table: 7 typed views + error pass-through".into())
 }
 
+/// pairs of different sources of equal length whose names collide under a 32-bit digest (the truncated std hash with
+/// its fixed default keys, FNV-1a, djb2, sdbm, the 31-polynomial): evaluated back to back through every entry point.
+/// Whatever remembers a source by a digest of it would answer the second with the first.
+struct CollidingSources {
+    pairs: Vec<(String, String, &'static str)>,
+}
+
+fn digests(s: &str) -> [(u32, &'static str); 8] {
+    use std::hash::{Hash, Hasher};
+    let mut h1 = std::collections::hash_map::DefaultHasher::new();
+    s.hash(&mut h1);
+    let a = h1.finish();
+    let mut h2 = std::collections::hash_map::DefaultHasher::new();
+    h2.write(s.as_bytes());
+    let b = h2.finish();
+    let mut fnv32: u32 = 0x811c9dc5;
+    let mut fnv64: u64 = 0xcbf29ce484222325;
+    let mut djb2: u32 = 5381;
+    let mut sdbm: u32 = 0;
+    let mut java: u32 = 0;
+    for &c in s.as_bytes() {
+        fnv32 = (fnv32 ^ c as u32).wrapping_mul(0x01000193);
+        fnv64 = (fnv64 ^ c as u64).wrapping_mul(0x100000001b3);
+        djb2 = djb2.wrapping_mul(33).wrapping_add(c as u32);
+        sdbm = (c as u32).wrapping_add(sdbm << 6).wrapping_add(sdbm << 16).wrapping_sub(sdbm);
+        java = java.wrapping_mul(31).wrapping_add(c as u32);
+    }
+    [
+        (a as u32, "low 32 bits of the std hash of the str"),
+        ((a >> 32) as u32, "high 32 bits of the std hash of the str"),
+        (b as u32, "low 32 bits of the std hash of the bytes"),
+        (fnv32, "FNV-1a 32"),
+        (fnv64 as u32, "low 32 bits of FNV-1a 64"),
+        (djb2, "djb2"),
+        (sdbm, "sdbm"),
+        (java, "31-polynomial (Java hashCode)"),
+    ]
+}
+
+fn colliding_pairs() -> Vec<(String, String, &'static str)> {
+    use std::collections::HashMap;
+    let mut tables: Vec<HashMap<u32, String>> = (0..8).map(|_| HashMap::new()).collect();
+    let mut found: Vec<(String, String, &'static str)> = Vec::new();
+    let mut per_kind = [0usize; 8];
+    // 7-digit integer literals, then 7-character sums: equal length, different values
+    let candidates = (1_000_000u32..1_450_000).map(|n| n.to_string()).chain((100u32..1000).flat_map(|a| (100u32..400).map(move |b| format!("{}+{}", a, b))));
+    for s in candidates {
+        for (k, (d, what)) in digests(&s).iter().enumerate() {
+            if per_kind[k] >= 12 {
+                continue;
+            }
+            match tables[k].get(d) {
+                Some(other) if other.len() == s.len() && *other != s => {
+                    found.push((other.clone(), s.clone(), what));
+                    per_kind[k] += 1;
+                },
+                Some(_) => {},
+                None => {
+                    tables[k].insert(*d, s.clone());
+                },
+            }
+        }
+    }
+    found
+}
+
+impl Phase for CollidingSources {
+    fn name(&self) -> String {
+        "equal-length sources that collide under 32-bit digests, back to back".into()
+    }
+    fn len(&self) -> u64 {
+        self.pairs.len() as u64
+    }
+    fn exhaustive(&self) -> bool {
+        true
+    }
+    fn run(&mut self, idx: u64, _r: &mut Rng, out: &mut Out) {
+        let (s1, s2, what) = self.pairs[idx as usize].clone();
+        let c0 = Ctx::new();
+        for (k, src) in [&s1, &s2, &s1, &s2].iter().enumerate() {
+            check_pair(out, src, &c0, format!("empty context; evaluation #{} of the pair {:?} / {:?}, which collide under {}", k + 1, s1, s2, what));
+        }
+        // and the plain facts: each source has its own value, whichever was evaluated before it
+        for src in [&s1, &s2, &s1] {
+            let want: i64 = src.split('+').map(|p| p.parse::<i64>().unwrap_or(0)).sum();
+            for (name, got) in [
+                ("eval", guard(|| evalexpr::eval(src)).map(|r| format!("{:?}", r))),
+                ("eval_int", guard(|| evalexpr::eval_int(src)).map(|r| format!("{:?}", r))),
+                ("eval_with_context", guard(|| evalexpr::eval_with_context(src, &c0)).map(|r| format!("{:?}", r))),
+                ("eval_with_context_mut", guard(|| evalexpr::eval_with_context_mut(src, &mut c0.clone())).map(|r| format!("{:?}", r))),
+                ("build_operator_tree + Node::eval", guard(|| build_operator_tree::<DefaultNumericTypes>(src).and_then(|t| t.eval())).map(|r| format!("{:?}", r))),
+            ] {
+                out.eval();
+                let ok = matches!(&got, Ok(g) if g.contains(&format!("({})", want)) && g.starts_with("Ok"));
+                if !ok {
+                    out.violation(
+                        &format!("entry-point/{}", name),
+                        format!("{}   [evaluated right after {:?}; the two collide under {}]", src, if *src == s1 { &s2 } else { &s1 }, what),
+                        format!("Ok(Int({}))", want),
+                        format!("{:?}", got.map_err(|p| api::panic_text(&p))),
+                    );
+                }
+            }
+        }
+        out.count("colliding pairs evaluated back to back");
+    }
+}
+
 pub fn phases(cfg: &Cfg) -> Vec<Box<dyn Phase>> {
-    vec![Box::new(Pairs {
-        n: cfg.n(100_000, 2_000_000),
-        recent: Vec::new(),
-    })]
+    vec![
+        Box::new(Pairs {
+            n: cfg.n(100_000, 2_000_000),
+            recent: Vec::new(),
+        }),
+        Box::new(CollidingSources {
+            pairs: colliding_pairs(),
+        }),
+    ]
 }
